@@ -133,8 +133,8 @@ def _is_hardcoded_excluded(file_path: Path) -> bool:
     if file_path.suffix in _HARDCODED_EXCLUDE_EXTENSIONS:
         return True
 
-    # Check if any parent directory is in the exclude list
-    for part in file_path.parts:
+    # Check if any parent directory is in the exclude list (the file's own name is not a directory)
+    for part in file_path.parts[:-1]:
         if part in _HARDCODED_EXCLUDE_DIRS:
             return True
         # Handle wildcard patterns like *.egg-info
